@@ -37,6 +37,7 @@ import warnings
 import numpy as np
 
 from ..gen import arrays as A
+from ..mon import siblings as S
 from ..mon.compare import compare_arrays, lazy_meta_mismatch
 
 PROP = "C31"
@@ -431,6 +432,58 @@ def _run_tensor(case, ctx):
             ctx.violation("%s:%s" % (label, m[0]), m[1])
     ctx.sample = {"kind": kind, "spec": case.get("spec", case.get("axes")), "shapes": case["s"], "chunks": case["c"],
                   "result_shape": list(np.shape(rv))}
+    # ---- sibling facet: the same operands contracted over OTHER axes / another einsum output must not share keys ----
+    if kind == "tensordot":
+        ax2 = _sibling_axes(case["axes"])
+        if ax2 is not None:
+            S.check(ctx, "tensordot", "axes", r, (lambda: da.tensordot(dxs[0], dxs[1], axes=ax2)), va=rv,
+                    describe={"axes": repr(ax2)})
+    elif kind == "einsum":
+        spec2 = _sibling_spec(case["spec"], S.rng_for(case))
+        if spec2 is not None:
+            S.check(ctx, "einsum", "subscripts", r, (lambda: da.einsum(spec2, *dxs, optimize=opt, **kw)), va=rv,
+                    describe={"spec": spec2})
+
+
+def _sibling_axes(axes):
+    """tensordot axes with one contracted pair dropped (always shape-compatible), or None"""
+    if isinstance(axes, int):
+        return 0 if axes == 1 else None
+    la, lb = axes
+    if not isinstance(la, list):
+        return 0
+    if not la:
+        return None
+    return (tuple(la[:-1]), tuple(lb[:-1]))
+
+
+def _sibling_spec(spec, srng):
+    """the same einsum inputs with ANOTHER explicit output: output letters reversed, or the last one summed away /
+    a summed letter kept; None when the spec gives no room (ellipsis in the inputs but not in an explicit output is
+    left alone)"""
+    ins, _, out = spec.partition("->")
+    letters = [c for c in ins if c.isalpha()]
+    has_ell = "..." in ins
+    if "->" in spec:
+        cur = out
+    else:
+        cur = ("..." if has_ell else "") + "".join(sorted(c for c in set(letters) if letters.count(c) == 1))
+    if has_ell and "..." not in cur:
+        return None
+    core = cur.replace("...", "")
+    ell = "..." if "..." in cur else ""
+    cands = []
+    if len(core) >= 2 and core[::-1] != core:
+        cands.append(ell + core[::-1])
+    if core:
+        cands.append(ell + core[:-1])
+    extra = sorted(set(letters) - set(core))
+    if extra:
+        cands.append(ell + core + extra[0])
+    cands = [c for c in cands if c != cur]
+    if not cands:
+        return None
+    return ins + "->" + srng.choice(cands)
 
 
 def _repeated(ins, xs, cs):
@@ -582,3 +635,7 @@ def _run_decomp(case, ctx):
             bad("USV!=A", "max|U diag(s) V - A| = %.3g > %.3g" % (e3, tol))
         ctx.sample = {"kind": kind, "path": path, "recursive": rec, "shape": [m, n], "chunks": case["c"],
                       "err_s": e0, "err_recon": e3, "tol": tol}
+        # ---- sibling facet: the same matrix with the other coerce_signs setting (s may legitimately be shared) -------
+        cs2 = not case.get("coerce_signs", True)
+        S.check(ctx, "svd", "coerce_signs", tuple(outs), (lambda: tuple(da.linalg.svd(dx, coerce_signs=cs2))), va=tuple(vals),
+                describe={"coerce_signs": cs2})
